@@ -258,6 +258,16 @@ def check_execution(P, prog, e, caps, bounds, sems, names, tlslock):
     evs, decisions = _events(P, e)
     if not evs:
         return bad
+    # `acq_await h` empties slot h while it waits, so another task can create a second acquisition under the same name:
+    # from then on the log cannot tell which semaphore an `acq_* h` line is about — such an execution is not judged
+    live = set()
+    for ev in evs:
+        if ev.name == "acq_new" and ev.res == "ok" and ev.args:
+            if ev.args[0] in live:
+                return bad
+            live.add(ev.args[0])
+        elif ev.name in ("acq_await", "acq_poll", "acq_drop") and ev.args and ev.res in ("ok", "closed", "ready:ok", "ready:closed"):
+            live.discard(ev.args[0])
     nameset = set(names)
     kinds = P["objs"]
     n = len(evs)
